@@ -63,6 +63,26 @@ claim("C16", "DESIGN.md §4 C16, App. A.5",
       "Decides for ALL code points and bytes (by partition, exhaustively over cells): (A1) the length the layout announces per character equals what write_char emits, for UnicodeEscape and AsciiEscape; (A2) emitted length >= own length with equality iff verbatim, so the fast path is taken iff nothing needs escaping, and AsciiEscape's verbatim cells are printable ASCII (discharging from_utf8_unchecked); (Q1) choose_quote equals Python's rule on every ordering of the two counts, and returns the chosen quote's count; (F1) changed()/write_body/repr framing; (W1) every emitted escape form is in the reference table with the same meaning and digit count. Not decided: identity with CPython's repr where printable status depends on the Unicode tables of a dependency.",
       "Static rule discharge over literal/src/escape.rs; oracle refdata/py311_escapes.json; the interpreter tools/rpverif/src/eval.rs is part of the trusted base." + COMMON_NOTE)
 
+claim("C08", "DESIGN.md §4 C08, §3.6",
+      "static analysis: units discipline on positions over resolved MIR call edges (no comparison/conversion of a TextSize/TextRange anywhere in the parser crate), token-payload inventory, paren-transparency of the grammar, skip-set / counter-reset / single-consumer rules of the lexer",
+      "Decides that the parser is position-blind and paren-blind and that layout produces no tokens: (B1) nothing in rustpython_parser compares, orders or converts a position (MIR inventory against a reviewed table) so two token streams equal up to ranges give trees equal up to ranges; (B2) no token carries layout; (B3) no parenthesis node, parenthesised atoms return the inner node, the only kind-dependent flag is the excepted AnnAssign.simple; (W1/W2) space, tab, form feed, comments, backslash-newline and blank lines are consumed without tokens and reset the indentation counters; (N1/N2) one normalising consumer folds CR/CR LF and skips the BOM; (I1/I2) no NEWLINE/INDENT/DEDENT inside brackets; (S1/S1b) soft-keyword decisions depend only on bracket depth 0 facts. Not decided: that the lexer yields equal token VALUES for every layout variant (value level).",
+      "Static rule discharge over MIR facts of rustpython_parser, parser/src/lexer.rs, token.rs, soft_keywords.rs, python.lalrpop." + COMMON_NOTE)
+
+claim("C09", "DESIGN.md §4 C09, §3.6",
+      "static analysis: units discipline over resolved MIR call edges (positions are never compared; literal/Default positions and position arithmetic only at tabled sites), syntactic provenance of every error offset, offset-threading rule on all lexer/parser entry calls, call-graph funnel to parse_filtered_tokens, shape rules on the 55 generated Parse impls",
+      "Decides translation invariance by a units argument and the single-funnel structure: (U1) every position is start + consumed bytes ± constant and nothing branches on it; (E2) every error offset is a position expression; (U2) every nested lexer/parser call receives the caller's own offset, zero only in lex/parse/Parse::parse; (N1) the lexer seeds location with the start offset; (F1/F1b) all public entry points reach parse_filtered_tokens (MIR reachability) and Suite/Stmt/Expr/Identifier/Constant project from that tree; (F2) all 55 generated impls delegate and unwrap their own variant; (F3) the full-lexer filter dominates the parser; (M1) mode names; (S1) interactive and module mode start at start-of-line alike. Two known findings: the offset-less token-stream API cannot place the mode marker / the empty-Stmt error at the start offset.",
+      "Static rule discharge over MIR facts and parser/src/{lexer,parser,string,function,soft_keywords}.rs, gen/parse.rs, core/src/mode.rs." + COMMON_NOTE)
+
+claim("C11", "DESIGN.md §4 C11",
+      "static analysis: the unparser's precedence constants, group_if! levels and the level passed at every unparse_expr call / Display use are extracted (macro bodies parsed) and compared with the grammar's expression chain and a position table whose every entry is re-verified against a witness in the grammar; operator spellings against refdata",
+      "Decides precedence and spelling agreement for every (parent, child position): (P0) constants follow the grammar chain read from its pass-through alternatives; (P1) every kind is parenthesised at or below the nonterminal that builds it; (P2) every child is rendered at a level >= what the grammar requires there, for all 75 positions and all operators, and no call site is unclassified; (P3) associativity sides; (S1) 29 operator spellings; (X1) exhaustive match. Since the parenthesised atom returns its inner node, any position can hold any expression, so P2 is a genuine necessary condition of reparsing. Not decided: constant rendering, f-string quoting, fixed-point as such.",
+      "Static rule discharge over ast/src/unparse.rs, ast/src/generic.rs, python.lalrpop; oracle refdata/unparse_positions.json (witness-checked), py311_ops.json." + COMMON_NOTE)
+
+claim("C13", "DESIGN.md §4 C13",
+      "static analysis: effective linear fold order per node kind (generated fold or LinearLocator override) against the reference source order; interleaving rule; fold-contract shape of overrides; sibling agreement of the three locators; line-break byte-set agreement across line index / newline iterator / linear locator / lexer; def-use rule on the selected line state",
+      "Decides source-order consistency and sibling agreement, not the line/column arithmetic: (O1) for all node kinds the fold visits range-carrying children in source order; (O2) the four interleaved pairs are zipped or located by look-ahead; (O3) overrides fold decorators before the node start and keep the fold contract; (S1) Random/Linear locators agree up to the locate call, the look-ahead one only uses locate_only; (T1) all components treat exactly LF and CR (CR LF once) as line breaks; (S2) locate_inner reads line facts only through the selected state; (R1) under all-nodes-with-ranges the optional-range nodes are monotone (three known findings shared with C02).",
+      "Static rule discharge over ast/src/source_locator.rs, gen/fold.rs, gen/generic.rs, core/src/source_code.rs, vendored/src/source_location/*.rs, parser/src/lexer.rs." + COMMON_NOTE)
+
 def main():
     props = [json.loads(l) for l in open(os.path.join(HERE, "properties.jsonl"))]
     checks, na = [], []
@@ -87,7 +107,7 @@ def main():
             na.append({"property_id": pid, "reason": "not claimed in this revision: the static rules planned for it in DESIGN.md section 4 are not built yet, so no verdict is given (it is not declared undecidable)"})
     m = {
         "version": 1,
-        "setup_cmd": "cd tools/rpverif && CARGO_NET_OFFLINE=true cargo build --release --offline",
+        "setup_cmd": "cd tools/rpverif && CARGO_NET_OFFLINE=true cargo build --release --offline && cd ../mirfacts && CARGO_NET_OFFLINE=true cargo +nightly build --release --offline",
         "hooks": {
             "guard": "rustpython_parser_verif",
             "enable": "none needed: every check is a static analysis of /repo's sources; nothing in /repo is compiled with a guard",
@@ -96,7 +116,8 @@ def main():
             "add_only": True,
         },
         "engines": [
-            {"name": "rpverif", "path": "tools/rpverif", "serves_properties": sorted(CLAIMED), "kind_free_text": "syn-based source model + LALRPOP grammar reader/regenerator + rule engine (static analysis; nothing of the subject is executed)"},
+            {"name": "rpverif", "path": "tools/rpverif", "serves_properties": sorted(CLAIMED), "kind_free_text": "syn-based source model + LALRPOP grammar reader/regenerator + rule engine + syntax-tree partition interpreter (static analysis; nothing of the subject is executed)"},
+            {"name": "mirfacts", "path": "tools/mirfacts", "serves_properties": [p for p in sorted(CLAIMED) if p in ("C03", "C08", "C09", "C18", "C19")], "kind_free_text": "nightly rustc_private driver run as RUSTC_WORKSPACE_WRAPPER under `cargo +nightly check` (type-check only): dumps resolved call edges, assert terminators, integer casts/binops from MIR; facts cached under .cache keyed by a hash of the tree"},
         ],
         "checks": checks,
         "not_applicable": na,
